@@ -58,18 +58,29 @@ def cacheLookup (k : Key) : List (Key × List (Option VId)) → Option (List (Op
   | [] => none
   | (k', a) :: rest => if k' = k then some a else cacheLookup k rest
 
+/-- filter callables that cannot be hashed (a callable dataclass, a class defining `__eq__` without
+    `__hash__`): in the protocol, the filters whose number is 5 modulo 13.  The arguments of
+    `neighbors()` are the memo key, so a query with such a filter is never cached (after the
+    repair F14: `_qa_neighbors_get` / `_qa_neighbors_insert` treat the TypeError of the hash as
+    "not cacheable"; before it the query raised). -/
+def unhashable (filt : Option Nat) : Bool :=
+  match filt with
+  | some k => k % 13 == 5
+  | none => false
+
 /-- `helpers.neighbors(vert=v, direction_sensitive=dir, unknown_handling=unk, filterfunc)` -/
 def neighbors (w : World) (F : Nat → LId → Option VId → Bool) (v : VId) (dir unk : Nat)
     (filt : Option Nat) (fault : Option Nat := none) :
     World × Except Err (List (Option VId)) :=
   let key : Key := ⟨dir, unk, filt⟩
-  match (if w.caching then cacheLookup key (w.cache v) else none) with
+  let memo := w.caching && !unhashable filt       -- caching on AND the arguments can serve as a key
+  match (if memo then cacheLookup key (w.cache v) else none) with
   | some ans => (w, .ok ans)
   | none =>
     match nbLoop w F v dir unk filt fault (w.links v) [] 0 with
     | .error e => (w, .error e)
     | .ok ans =>
-      (if w.caching then { w with cache := upd w.cache v ((key, ans) :: w.cache v) } else w, .ok ans)
+      (if memo then { w with cache := upd w.cache v ((key, ans) :: w.cache v) } else w, .ok ans)
 
 /-- `neighbors` recomputed, ignoring and not touching the cache (the reference answer of C05) -/
 def neighborsPure (w : World) (F : Nat → LId → Option VId → Bool) (v : VId) (dir unk : Nat)
